@@ -1249,6 +1249,13 @@ func nullableRules(r *Run, p *Prog, m *idlModel, root string) {
 		cgG := BuildCallGraph(p)
 		seenV := map[*ssa.Function]bool{}
 		var work []*ssa.Function
+		// the template function (found by role) is a root of its own: in the view of the command-line wrapper around
+		// it the error exits (`os.Exit`) are ordinary calls after which control continues, which blurs what the
+		// template's own view shows exactly; the wrapper is analysed with the template function kept as a call
+		rootF := p.Func(pkgGen, root)
+		if rootF != nil {
+			work = append(work, rootF)
+		}
 		for _, f := range gen {
 			if f.Parent() == nil && len(f.Blocks) > 0 && len(cgG.Callers[f]) == 0 {
 				work = append(work, f)
@@ -1261,7 +1268,11 @@ func nullableRules(r *Run, p *Prog, m *idlModel, root string) {
 				continue
 			}
 			seenV[f] = true
-			v := p.Inlined(f, nil)
+			var keepRoot func(*ssa.Function) bool
+			if rootF != nil && f != rootF {
+				keepRoot = func(callee *ssa.Function) bool { return callee == rootF }
+			}
+			v := p.Inlined(f, keepRoot)
 			views = append(views, v)
 			for _, cs := range callsIn(v, true) {
 				if t := cs.Common.StaticCallee(); t != nil && fnPkgPath(t) == pkgGen && t.Parent() == nil && len(t.Blocks) > 0 && !seenV[t] {
